@@ -186,3 +186,12 @@ Theorem C16_post_order_numbering : forall h o l,
 Proof. exact m_postorder_materialise. Qed.
 Print Assumptions C16_post_order_numbering.
 Example C16_post_order_ex : m_postorder (materialise 2 7 4) = [8; 9; 10; 11; 12; 13; 14]. Proof. reflexivity. Qed.
+
+(* node indices over the whole u64 range: the structural answer in the single perfect tree of height 63 *)
+Theorem C16_node_u64 : forall x, 1 <= x < 2 ^ 64 ->
+  exists pk t ni, f_locate (2 ^ 63) x = Some (pk, t, ni) /\
+    mm_right_lineage_length_and_own_height x = Some (ni_rll ni, ni_height ni) /\
+    mm_right_lineage_length_from_node_index x = Some (ni_rll ni) /\
+    mm_node_index_to_leaf_index x = Some (if ni_height ni =? 0 then Some (ni_first_leaf ni) else None).
+Proof. exact main_node_u64. Qed.
+Print Assumptions C16_node_u64.
